@@ -70,6 +70,21 @@ class Composite:
             rs.append(member_region(n, rev, 3 * xs[0] if last else 0, xs[0] if last else 0))
         return ("and" if f["cls"] == "C" else "or", rs)
 
+    def probes(self):
+        """concrete query points (off every lattice line the catalogue uses): near the centre of each member, between consecutive
+        members, between a member's centre and its first vertex, and far away in four directions"""
+        f = FAMS[self.fam]
+        cs = []
+        for n, rev in f["members"]:
+            pts = R.polys_of(member_region(n, rev))[0]
+            cx, cy = sum(F(p[0]) for p in pts) / len(pts), sum(F(p[1]) for p in pts) / len(pts)
+            cs.append((cx, cy))
+            cs.append(((cx + 3 * F(pts[0][0])) / 4, (cy + 3 * F(pts[0][1])) / 4))
+        mids = [((a[0] + b[0]) / 2, (a[1] + b[1]) / 2) for a, b in zip(cs[::2], cs[2::2])]
+        far = [(F(50), F(37)), (F(-50), F(37)), (F(-50), F(-37)), (F(50), F(-37)), (F(0), F(29)), (F(31), F(0))]
+        e = (F(1, 7), F(1, 11))
+        return [(x + e[0], y + e[1]) for x, y in cs + mids + far]
+
     def run(self, xs):
         f = FAMS[self.fam]
         ms = self.members(xs)
@@ -90,6 +105,10 @@ class Composite:
         out["inv_kind"] = type(inv).__name__
         out["_regInv"] = geom.region_of_shape(inv)
         out["_S"] = S
+        pr = self.probes()
+        out["hasS"] = [bool(q in S) for q in pr]
+        out["hasO"] = [bool(q in O) for q in pr]
+        out["hasS_open"] = [bool(S.contains_point(q, False)) for q in pr]
         return out
 
     def oblige(self, tr, out):
@@ -106,6 +125,11 @@ class Composite:
                ("constructed composite is not == the operator result (or kinds differ)", Fl if out["eq"] and out["eq_rev"] and out["kinds"][0] == out["kinds"][1] else T, {"kinds": out["kinds"]})]
         same_m = all(num_equal(a, b) for a, b in zip(out["mS"], out["mO"])) and num_equal(out["fS"], out["fO"]) and num_equal(out["fS"], out["mS"][0])
         obs.append(("area / moments differ between constructed and operator-built composite", Fl if same_m else T, {}))
+        bad = []
+        for q, a, b, c in zip(self.probes(), out["hasS"], out["hasO"], out["hasS_open"]):
+            zq = R.z_in(want, q[0], q[1])
+            bad.append(z3.And(R.z_off_boundary(q[0], q[1], polys), z3.Or(zq != z3.BoolVal(a), zq != z3.BoolVal(b), zq != z3.BoolVal(c))))
+        obs.append(("containment answer of the constructed / operator-built composite at a probe point differs from the truth", z3.Or(bad), {}))
         return obs
 
     def on_raise(self, exc, func, line):
@@ -127,6 +151,15 @@ class Composite:
             return R.x_in(geom.concrete_region(outcome["_regInv"]), p) == R.x_in(want, p), desc + f": p={p}"
         if name.startswith("constructed composite is not =="):
             return not (outcome["eq"] and outcome["eq_rev"] and outcome["kinds"][0] == outcome["kinds"][1]), desc + f": eq={outcome['eq']}/{outcome['eq_rev']} kinds {outcome['kinds']}"
+        if name.startswith("containment answer"):
+            polys = R.polys_of(want)
+            bad = []
+            for q, a, b, c in zip(self.probes(), outcome["hasS"], outcome["hasO"], outcome["hasS_open"]):
+                if R.x_dist2_boundary(q, polys) > R.BAND**2:
+                    w = R.x_in(want, q)
+                    if not (a == w and b == w and c == w):
+                        bad.append(f"p=({q[0]}, {q[1]}): truth {w}, constructed says {a} (open: {c}), operator-built says {b}")
+            return bool(bad), desc + ": " + "; ".join(bad[:3])
         if name.startswith("area"):
             bad = [str(a) + " vs " + str(b) for a, b in zip(outcome["mS"], outcome["mO"]) if val(a) != val(b)]
             return bool(bad) or val(outcome["fS"]) != val(outcome["fO"]), desc + f": {bad[:3]}"
